@@ -132,10 +132,14 @@ public:
         case IISStatus::upp:
           slk_iis = (int)IISStatus::low;
           break;
-        case IISStatus::fix:
+        case IISStatus::plow:
+          slk_iis = (int)IISStatus::pupp;
           break;
-        default:
-          MP_RAISE("Unknown IIS status for a range constraint slack");
+        case IISStatus::pupp:
+          slk_iis = (int)IISStatus::plow;
+          break;
+        default:            // fix, mem, pmem: no bound to reverse
+          break;
       }
       SetInt(be, CON_SRC, slk_iis);
     } else
